@@ -67,9 +67,11 @@ def segFilterSpec (name : String) (h : Bool) (f : Seg → Option Rat) (inp out :
 
 /-- distance of the `sem` filter's two comparisons to their boundary (knife-edge rule) -/
 def semSlack (t : List Seg) : Rat :=
-  (t.flatMap (fun r =>
-    let m := r.sem.getD 0 * Generated.SEM_ZSCORE
-    [ratAbs (r.log2 + m), ratAbs (r.log2 - m)])).foldl min 1
+  (t.flatMap (fun r => match r.sem with
+    | none => []      -- a missing sem takes part in no comparison that could go either way
+    | some s =>
+      let m := s * Generated.SEM_ZSCORE
+      [ratAbs (r.log2 + m), ratAbs (r.log2 - m)])).foldl min 1
 
 def handleSegFilter (op : String) (inp : Json) (impl : Option Json) : R (Option Json) := do
   match op with
